@@ -10,7 +10,8 @@ WRITE_FAULTS = ["f" + k for k in ERROR_KINDS] + ["z"]
 
 class C09(Property):
     id = "C09"
-    lean_module = "RosuModel.Props.C09"
+    lean_module = "RosuModel.Props.C09Full"   # imports Props/C09.lean and Props/C09Encode.lean; both in namespace Rosu.C09
+    theorem_modules = ["RosuModel.Props.C09", "RosuModel.Props.C09Encode"]   # files whose top-level theorems are all audited
     namespace = "Rosu.C09"
     design_ref = "5.9"
     level_text = (
@@ -25,7 +26,12 @@ class C09(Property):
         "a fatal event behind a budget smaller than the output is returned (Ok(0) as WriteZero), exactly the budgeted prefix was written and "
         "flush is not attempted (write_fault_surfaces); otherwise every byte is written whatever the short writes and interruptions and the "
         "result is flush's (short_writes_transparent, flush_checked); the accepted bytes are always a prefix (written_prefix); the cut into "
-        "write_all calls is irrelevant (call_boundaries_irrelevant). Tied to the code on every run: an injecting BufRead drives the real "
+        "write_all calls is irrelevant (call_boundaries_irrelevant). Composed with the MODELLED ENCODER (Props/C09Encode.lean, Model/Encode.lean: "
+        "the text Beatmap::encode writes, compared with the real encoder character for character by the enc / rt / edit families): for every map the "
+        "encoder finishes on, every writer schedule and every cut of the text's UTF-8 bytes into write_all calls, a reached fault is the result of "
+        "encoding the map with exactly the bytes in front of it accepted and no flush (encode_map_fault_surfaces); without a reached fault the whole text "
+        "is written and the result is flush's (encode_map_complete); Ok is returned exactly when no fault is reached and flush succeeds "
+        "(encode_map_ok_iff); what the writer holds is always a prefix of the map's text (encode_map_written_prefix). Tied to the code on every run: an injecting BufRead drives the real "
         "decoder at every byte offset of the small bundled files (sampled for large) with five error kinds; an injecting Write is compared "
         "with the writer model under std's write_all, and drives the real Beatmap::encode on bundled maps at every output offset, checked "
         "against the statement and against a replay of its own write calls.")
@@ -34,16 +40,19 @@ class C09(Property):
         "read_fault_surfaces", "ok_means_no_fault", "interrupted_not_a_fault", "decode_err_only_from_reader",
         "decode_fails_iff_reader_fails", "write_fault_surfaces", "short_writes_transparent",
         "flush_checked", "written_prefix", "call_boundaries_irrelevant",
+        "encode_map_fault_surfaces", "encode_map_complete", "encode_map_ok_iff", "encode_map_written_prefix", "encode_map_panic",
     ]
     partial_theorems = {
-        "write_fault_surfaces": "about the model's list of write_all calls for an arbitrary call list; that Beatmap::encode IS such a list "
-                                "followed by one flush is checked on the implementation per case (replay of its recorded write calls), "
-                                "the encoder itself (Model/Encode) is not modelled in this revision",
+        "encode_map_fault_surfaces / encode_map_complete / encode_map_ok_iff":
+            "stated for every cut `calls` of the text's UTF-8 bytes into write_all calls (calls.flatten = utf8Encode text): that the real Beatmap::encode "
+            "issues such a cut followed by one flush, and that its text is the model's, is checked on the implementation per case (replay of its recorded "
+            "write calls; enc correspondence), not proved; when the encoder itself fails (the model's panic outcome: the f64::clamp assertion of "
+            "SliderEventsIter::new, see C01) there is no I/O result (encode_map_panic) - earlier sections may already have reached the writer then",
     }
     trusted_base = [
         "Lean 4.33.0 kernel",
         "axioms: at most propext, Classical.choice, Quot.sound (audited per theorem with #print axioms)",
-        "hand-written models Model/{Reader,Framing,Writer}.lean tied to /repo and to std by the differential run of this check",
+        "hand-written models Model/{Reader,Framing,Writer,Encode}.lean tied to /repo and to std by the differential run of this check",
         "std: BufRead::read_until, Read::read_exact, Write::write_all (retry on Interrupted, Ok(0) -> WriteZero, short writes continue), "
         "Write::write_fmt reaching the writer only through write_all — modelled per documentation, exercised on every run",
         "the injecting BufRead / Write implementations in the harness",
